@@ -107,6 +107,16 @@ func c05RR(r *fw.R, ar *wire.RR, tn string) {
 		r.Fail(c05Key(key("rdata-differs"), ar), "text %q re-parses to different octets\n got  %x\n want %x", text, got, want)
 		return
 	}
+	// String() ends without a line terminator: the zone parser reads exactly that text (NewRR appends a newline)
+	{
+		zp := dns.NewZoneParser(strings.NewReader(text), "", "")
+		x, ok := zp.Next()
+		if !ok || zp.Err() != nil || x == nil || x.String() != rr2.String() {
+			r.Fail(c05Key(key("text-without-newline"), ar), "the zone parser reads String() as it stands (no final newline) as %v, Err() = %v; with a newline it reads %q", x, zp.Err(), rr2.String())
+		} else if _, again := zp.Next(); again {
+			r.Fail(c05Key(key("text-without-newline"), ar), "the zone parser returns a second record for %q", text)
+		}
+	}
 	// as a line of a zone: the same text followed by another record of the same type (the type's default record under
 	// another owner — what one reader keeps between records of a type may not leak from one into the other) and by an A
 	// record — the reader may neither run into the next line nor leave something of this one behind, and the first
